@@ -19,6 +19,9 @@ DEFAULT_OPTS = {
   "reset": True,
   "uu": False,               # explicit U(a) < U(b) between independent blocks
   "min_comb": 1,
+  "lists": True,             # lists of signals (ports / wires), read with constant and variable indices
+  "lambdas": True,           # s.x //= lambda: expr
+  "cvars": True,             # closure constants used inside blocks
   "sloppy": 0,               # C10: probability (in 1/16) that a sub-expression is requested with a wrong width
   "translatable": False,     # stay inside what the RTLIR type checker / translators accept
   "no_sext_compound": False, # exclusion switch for the known finding "sext of a compound operand"
@@ -55,6 +58,8 @@ class ClassBuilder:
     self.ports, self.wires, self.children, self.conns, self.blocks, self.uu = [], [], [], [], [], []
     self.avail = []            # [(ref-without-slice, type)] readable sources (whole signals / child outs)
     self.n = 0
+    self.lists = []            # [(inst, base, count, elemtype)] lists of signals readable with an index
+    self.consts = []           # [[name, int | ["const", w, v]]] closure constants
     self.regs = []
     self.comb_out = False      # some out port depends combinationally on an in port
     self.tmpn = 0
@@ -82,8 +87,28 @@ class ClassBuilder:
           out.append((r, lt[1]))
     return out
 
+  def lsel_leaf(self, w, env):
+    """element of a list of signals selected by a constant, a loop variable or a signal, adapted to width w"""
+    d = self.draw
+    cands = [l for l in self.lists if l[3][0] == "b"]
+    inst, base, cnt, t = d(st.sampled_from(cands))
+    iw = cnt.bit_length() - 1
+    if (1 << iw) == cnt and iw >= 1 and d(st.integers(0, 2)) > 0:
+      idx = self.expr(iw, env, 3)
+    elif env.get("lv") and any(c <= cnt for _, c in env["lv"]) and d(st.booleans()):
+      idx = ["lv", [n for n, c in env["lv"] if c <= cnt][0]]
+    else:
+      idx = ["lit", d(st.integers(0, cnt - 1))]
+    e = ["lsel", mkref(base, inst=inst), cnt, idx]
+    ew = t[1]
+    if ew == w: return e
+    if ew > w: return ["trunc", e, w]
+    return [d(st.sampled_from(["zext", "sext"])), e, w]
+
   def leaf(self, w, env):
     d = self.draw
+    if self.lists and not env.get("no_lsel") and d(st.integers(0, 7)) == 0 and any(l[3][0] == "b" for l in self.lists):
+      return self.lsel_leaf(w, env)
     srcs = self.bits_sources()
     tmps = [(n, tw) for n, tw in env.get("tmps", [])]
     k = d(st.integers(0, 9))
@@ -170,6 +195,18 @@ class ClassBuilder:
             # out-of-range values when n is a power of two
             return ["bit", ref, self.expr(iw, env, depth + 1)]
           return ["bit", ref, ["lit", d(st.integers(0, sw - 1))]]
+    if self.lists and k >= 13 and d(st.booleans()):
+      cands = [l for l in self.lists if l[3][0] == "b" and l[3][1] == w]
+      if cands:
+        inst, base, cnt, t = d(st.sampled_from(cands))
+        iw = cnt.bit_length() - 1
+        if (1 << iw) == cnt and iw >= 1 and d(st.booleans()):
+          idx = self.expr(iw, env, depth + 1)
+        elif env.get("lv") and d(st.booleans()) and any(c <= cnt for _, c in env["lv"]):
+          idx = ["lv", [n for n, c in env["lv"] if c <= cnt][0]]
+        else:
+          idx = ["lit", d(st.integers(0, cnt - 1))]
+        return ["lsel", mkref(base, inst=inst), cnt, idx]
     if k < 9:
       op = d(st.sampled_from(["+", "-", "*", "&", "|", "^", "+", "-", "&", "|", "^"]))
       a = self.expr(w, env, depth + 1)
@@ -214,8 +251,22 @@ class ClassBuilder:
       if not _is_constant(e): return e
     return e
 
+  def cvar(self, w, as_int):
+    """a closure constant (declared once per class) of the requested kind"""
+    d = self.draw
+    top = (1 << w) - 1
+    name = f"K{len(self.consts) + 1}"
+    if as_int:
+      v = d(st.one_of(st.integers(0, min(top, 9)), st.integers(0, top)))
+      self.consts.append([name, v]); return ["cvar", name, v]
+    from vf.strategies import uvalue
+    c = ["const", w, d(uvalue(w))]
+    self.consts.append([name, c]); return ["cvar", name, c]
+
   def lit_or_expr(self, w, env, depth):
     d = self.draw
+    if self.opts["cvars"] and not self.opts["sloppy"] and d(st.integers(0, 11)) == 0 and len(self.consts) < 4:
+      return self.cvar(w, d(st.booleans()))
     if self.opts["sloppy"] and d(st.integers(0, 5)) == 0:
       k = d(st.integers(0, 5))
       top = (1 << w) - 1
@@ -349,6 +400,14 @@ class ClassBuilder:
     blk_parts = []
     for ref, w, pt in parts:
       how = d(st.integers(0, 4))
+      if (self.opts["lambdas"] and how == 1 and pt[0] == "b" and not ref["inst"] and not ref["fld"] and
+          ref["sl"] is None and "[" not in ref["sig"] and d(st.booleans())):
+        e = self.expr(w, {"tmps": [], "lv": [], "maxd": 2})
+        if not _is_constant(e) and _mentions_signal(e):
+          # (a lambda whose body never mentions `s` cannot be turned into an update block by pymtl3)
+          self.blocks.append({"name": "lam:" + ref["sig"], "kind": "comb", "lambda": True,
+                              "stmts": [["assign", ref, e]]})
+          continue
       if how == 0 and pt[0] == "b":
         # connection from an available Bits source of the same width (or a slice), or a constant
         cands = self.bits_sources()
@@ -394,12 +453,31 @@ class ClassBuilder:
       if len(gnames) == 2 and d(st.booleans()):
         self.uu.append(gnames if d(st.booleans()) else gnames[::-1])
       # a redundant constraint along the creation order (earlier comb block before a later one)
-      prior = [b["name"] for b in self.blocks if b["kind"] == "comb" and b["name"] not in gnames]
+      prior = [b["name"] for b in self.blocks if b["kind"] == "comb" and b["name"] not in gnames and not b.get("lambda")]
       if prior and d(st.integers(0, 3)) == 0:
         self.uu.append([d(st.sampled_from(prior)), gnames[0]])
 
+  def step_list(self):
+    """a new list of 2-4 Bits signals, every element driven separately"""
+    d = self.draw
+    cnt = d(st.sampled_from([2, 2, 3, 4]))
+    t = ["b", W(d, self.opts)]
+    kind = d(st.sampled_from(["w", "out"]))
+    base = self.fresh("lw" if kind == "w" else "lout")
+    parts = []
+    for i in range(cnt):
+      n = f"{base}[{i}]"
+      if kind == "w": self.wires.append([n, t])
+      else: self.ports.append([n, "out", t])
+      parts.extend(self.parts_of(n, t))
+    self.drive(parts)
+    for i in range(cnt): self.avail.append((mkref(f"{base}[{i}]"), t))
+    self.lists.append(("", base, cnt, t))
+
   def step_signals(self):
     d = self.draw
+    if self.opts["lists"] and d(st.integers(0, 5)) == 0:
+      return self.step_list()
     new = []
     allparts = []
     for _ in range(d(st.integers(1, 2))):
@@ -423,9 +501,13 @@ class ClassBuilder:
       if dr == "in":
         parts.extend(self._child_in_parts(iname, n, t))
     self.drive(parts, "upc")
+    groups = {}
     for n, dr, t in c["ports"]:
       if dr == "out":
         self.avail.append((mkref(n, inst=iname), t))
+        if "[" in n: groups.setdefault(n.split("[", 1)[0], []).append(t)
+    for base, ts in groups.items():
+      self.lists.append((iname, base, len(ts), ts[0]))
 
   def _child_in_parts(self, iname, n, t):
     d = self.draw
@@ -444,6 +526,12 @@ class ClassBuilder:
       if o["structs"] == "top_in_only" and is_top and d(st.integers(0, 1)) == 0:
         t = small_struct(d)                        # struct types only on top-level input ports
       self.ports.append([n, "in", t]); self.avail.append((mkref(n), t))
+    if o["lists"] and d(st.integers(0, 4)) == 0:
+      cnt = d(st.sampled_from([2, 3, 4])); t = ["b", W(d, o)]
+      base = self.fresh("lin")
+      for i in range(cnt):
+        self.ports.append([f"{base}[{i}]", "in", t]); self.avail.append((mkref(f"{base}[{i}]"), t))
+      self.lists.append(("", base, cnt, t))
     if o["reset"] and d(st.integers(0, 3)) == 0:
       self.avail.append((mkref("reset"), ["b", 1]))
     # registers (available from the start)
@@ -471,7 +559,13 @@ class ClassBuilder:
       n = self.fresh("out"); self.ports.append([n, "out", t])
       self.drive([(mkref(n), type_width(t), t)])
     return {"ports": self.ports, "wires": self.wires, "children": self.children,
-            "conns": self.conns, "blocks": self.blocks, "uu": self.uu}
+            "conns": self.conns, "blocks": self.blocks, "uu": self.uu, "consts": self.consts}
+
+
+def _mentions_signal(e):
+  if isinstance(e, dict): return "sig" in e
+  if isinstance(e, list): return any(_mentions_signal(x) for x in e)
+  return False
 
 
 def _flat(t):
@@ -480,8 +574,8 @@ def _flat(t):
 
 def _is_constant(e):
   k = e[0]
-  if k in ("const", "lit"): return True
-  if k in ("sig", "tmp", "tmpsl", "lv", "bit", "slice_lv"): return False
+  if k in ("const", "lit", "cvar"): return True
+  if k in ("sig", "tmp", "tmpsl", "lv", "bit", "slice_lv", "lsel"): return False
   if k == "bin": return _is_constant(e[2]) and _is_constant(e[3])
   if k in ("shl", "shr"): return _is_constant(e[1]) and _is_constant(e[2])
   if k == "cmp": return _is_constant(e[2]) and _is_constant(e[3])
@@ -530,8 +624,8 @@ def build_variant(draw, name, ports, opts, pool, depth, rdwr=False, once=False):
     for g in [regs[i::k] for i in range(k)]:
       cb.blocks.append(cb.ff_block(g, cb.fresh("ff")))
   cls = {"ports": cb.ports, "wires": cb.wires, "children": cb.children, "conns": cb.conns,
-         "blocks": cb.blocks, "uu": cb.uu, "rdwr": []}
-  combs = [b for b in cls["blocks"] if b["kind"] == "comb"]
+         "blocks": cb.blocks, "uu": cb.uu, "rdwr": [], "consts": cb.consts}
+  combs = [b for b in cls["blocks"] if b["kind"] == "comb" and not b.get("lambda")]
   if rdwr and combs:
     # semantically neutral value constraints: WR(x) < U(b) for a block b that reads x, U(a) < RD(x) for a writer a
     from vf.ref.rtl_eval import Model
